@@ -5,6 +5,7 @@ CONSTANT Vals <- VS4
 CONSTANT D = 3
 CONSTANT Fns <- FnsSign
 INVARIANT RefinesDefinition
+INVARIANT NbrEnumerationEqualsDefinition
 INVARIANT PrefixInv
 INVARIANT InUnitInterval
 INVARIANT ZeroWhenNoTriangleOrDegLT2
